@@ -349,8 +349,13 @@ def forward_pass(run: Run, pkg: Package, funcs: List[FunctionInfo]) -> int:
     for fi in funcs:
         own = set(fi.params) - {"self", "cls"}
         attrs = set()
-        if fi.cls is not None:
-            attrs = {m.attr for c in fi.cls.methods.values() for m in ast.walk(c.node) if is_self_attr(m)}
+        if fi.cls is not None and "__init__" in fi.cls.methods:
+            # options of the instance: constructor parameters stored under their own name (self.ppp = ppp)
+            init = fi.cls.methods["__init__"]
+            ip = set(init.params)
+            for st in ast.walk(init.node):
+                if isinstance(st, ast.Assign) and isinstance(st.value, ast.Name) and st.value.id in ip:
+                    attrs |= {t.attr for t in st.targets if is_self_attr(t) and t.attr == st.value.id}
         for call in ast.walk(fi.node):
             if not isinstance(call, ast.Call):
                 continue
